@@ -134,7 +134,7 @@ func TestC07Remove(t *testing.T) {
 	if e.get("remove_added") == 0 || e.get("remove_removed_all_own_files") == 0 {
 		os.RemoveAll(base)
 		os.RemoveAll(dbDir)
-		core.HarnessError("vacuous remove part: added=%d removed-own=%d", e.get("remove_added"), e.get("remove_removed_all_own_files"))
+		rep.Vacuous("vacuous remove part: added=%d removed-own=%d", e.get("remove_added"), e.get("remove_removed_all_own_files"))
 	}
 	if debugTiming {
 		e.cnt.Range(func(k, v any) bool {
